@@ -99,8 +99,8 @@ class C20(Prop):
     REAL_VS_STUB = {'real': ['dataflows dump_to_sql, tableschema-sql, SQLAlchemy, sqlite'], 'stub': ['none: the database file in the scratch directory is the durable state; each dump is a fresh process']}
     PROBES = ['mode-rewrite', 'mode-append', 'mode-update', 'update-first-dump-creates-table', 'update-keys-from-primary-key', 'update-keys-explicit', 'update-keys-configured-but-not-update-mode',
               'repeated-key-in-stream', 'append-pk-conflict-predicted', 'array-object-columns', 'batch-1', 'bloom-off', 'updated-column', 'rewrite-changes-primary-key']
-    TIERS = {'quick': dict(runs=500, wall=100, run_wall=120),
-             'thorough': dict(runs=12000, wall=1700, run_wall=300)}
+    TIERS = {'quick': dict(runs=500, wall=100, run_wall=300),
+             'thorough': dict(runs=12000, wall=1700, run_wall=600)}
     SHRINK_FROZEN = ('fields',)
 
     def generate(self, rng, tier):
